@@ -4,7 +4,14 @@
    (Model/C17.v); b2u_rows / u2b_rows are the (Big5 code, UCS-2 code) rows of the two UAO files as
    gosync re-reads them on every run (Gen/Big5Tab.v); utf8_std is the RFC 3629 bit layout and
    utf8_valid the strict well-formedness test of Unicode table 3-7 (Proofs/C17_spec.v).
-   Non-vacuity examples: model_examples, mutual_str_nonempty (Proofs/C17.v), b2u_rows_nonempty, mutual_nonempty (Proofs/C17_sweep_*.v). *)
+   The last section is about the server as it starts: the two maps are package state, empty in a new process and
+   filled by initBig5() (Model/C17.v: init_big5 over the explicit state `tabs`; `after h` is the state of a process
+   after the history h of start-up attempts, each attempt given as (BIG5_TO_UTF8 readable, UTF8_TO_BIG5 readable));
+   big5_to_utf8_of / utf8_to_big5_of are the converters on whatever the maps hold, and bbs_init_config is
+   ptttype.InitConfig()'s handling of BBSNAME / BBSNAME_BIG5.
+   Non-vacuity examples: model_examples, mutual_str_nonempty (Proofs/C17_main.v), b2u_rows_nonempty, mutual_nonempty
+   (Proofs/C17_sweep_*.v), init_examples, init_examples_loaded, half_loaded_example, bbs_examples (Proofs/C17_init.v). *)
+From Coq Require Import FMapPositive.
 From Verif Require Import Base.Common Gen.Big5Tab Model.C17 Proofs.C17.
 
 (* Big5ToUtf8 returns for every input (no Hang, no exhausted fuel, no Crash); at most 3 output bytes per 2 input bytes *)
@@ -78,3 +85,66 @@ Print Assumptions C17_mutual_roundtrip.
 Theorem C17_mutual_roundtrip_strings : forall s t, mutual_str s t -> big5_to_utf8 s = Ok t /\ utf8_to_big5 t = Ok s.
 Proof. exact mutual_str_roundtrip. Qed.
 Print Assumptions C17_mutual_roundtrip_strings.
+
+(* ------------------------------------------------------------------ initialisation paths *)
+
+(* at every moment of every history of start-up attempts (failed ones included) each map is either as a new
+   process has it or exactly the regenerated table: there is no half-filled or stale table *)
+Theorem C17_init_tables_invariant : forall h,
+  (tb (after h) = PositiveMap.empty (list Z) \/ tb (after h) = b2u_map) /\
+  (tu (after h) = PositiveMap.empty (list Z) \/ tu (after h) = u2b_map).
+Proof. exact after_tables. Qed.
+Print Assumptions C17_init_tables_invariant.
+
+(* a start-up that returns nil has loaded BOTH tables, whatever went wrong in the attempts before it
+   (a first attempt that loaded one table and failed on the other, a retry, a second start-up, ...) *)
+Theorem C17_init_success_loads_both : forall h a,
+  fst (init_big5 a (after h)) = true -> snd (init_big5 a (after h)) = all_tabs.
+Proof. exact init_success_loads_both. Qed.
+Print Assumptions C17_init_success_loads_both.
+
+(* ... an attempt with both files readable does return nil in every state, and after a nil start-up every later
+   attempt returns nil and leaves the tables alone *)
+Theorem C17_init_retry_and_stability :
+  (forall h, fst (init_big5 (true, true) (after h)) = true) /\
+  (forall h1 a h2, fst (init_big5 a (after h1)) = true -> after (h1 ++ a :: h2) = all_tabs) /\
+  (forall a, init_big5 a all_tabs = (true, all_tabs)).
+Proof. exact (conj init_retry_succeeds (conj loaded_is_stable all_tabs_stable)). Qed.
+Print Assumptions C17_init_retry_and_stability.
+
+(* so after any start-up that returned nil the server's converters are big5_to_utf8 / utf8_to_big5, the functions
+   every theorem above is about ... *)
+Theorem C17_post_init_converters : forall h a, fst (init_big5 a (after h)) = true ->
+  forall s, big5_to_utf8_of (tb (snd (init_big5 a (after h)))) s = big5_to_utf8 s /\
+            utf8_to_big5_of (tu (snd (init_big5 a (after h)))) s = utf8_to_big5 s.
+Proof. exact post_init_converters. Qed.
+Print Assumptions C17_post_init_converters.
+
+(* ... in particular: table-exact in both directions and exact inverses on strings of mutually mapped codes *)
+Theorem C17_post_init_table_exact : forall h a, fst (init_big5 a (after h)) = true ->
+  let t := snd (init_big5 a (after h)) in
+  (forall c u, In (c, u) b2u_rows -> big5_to_utf8_of (tb t) (big5_bytes c) = Ok (utf8_std u)) /\
+  (forall c u, In (c, u) u2b_rows -> 128 <= u -> utf8_to_big5_of (tu t) (utf8_std u) = Ok (big5_bytes c)) /\
+  (forall s s', mutual_str s s' -> big5_to_utf8_of (tb t) s = Ok s' /\ utf8_to_big5_of (tu t) s' = Ok s).
+Proof. exact post_init_table_exact. Qed.
+Print Assumptions C17_post_init_table_exact.
+
+(* both conversions return, with the same output bounds, in every state a process can be in
+   (nothing loaded, one table loaded after a failed attempt, both) *)
+Theorem C17_any_state_total : forall h s,
+  (exists o, big5_to_utf8_of (tb (after h)) s = Ok o /\ (2 * length o <= 3 * length s)%nat) /\
+  (exists o, utf8_to_big5_of (tu (after h)) s = Ok o /\ (length o <= 2 * length s)%nat).
+Proof. exact any_state_total. Qed.
+Print Assumptions C17_any_state_total.
+
+(* the site name: after every ptttype.InitConfig() of every sequence of them — the first of a new process, with a
+   configured name, without one, with the name it already has, with the empty name — and from any values the two
+   variables had before, BBSNAME is the configured name (or the old one) and BBSNAME_BIG5 is its conversion:
+   on the loaded tables the table-exact Utf8ToBig5 of the theorems above; the steps always return *)
+Theorem C17_bbsname_big5_follows_name :
+  (forall t cfg st st', bbs_init_config t cfg st = Ok st' ->
+     utf8_to_big5_of (tu t) (bbs_name st') = Ok (bbs_big5 st') /\ bbs_name st' = match cfg with Some n => n | None => bbs_name st end) /\
+  (forall cfgs st sts, bbs_steps all_tabs cfgs st = Ok sts -> Forall (fun s => utf8_to_big5 (bbs_name s) = Ok (bbs_big5 s)) sts) /\
+  (forall h cfgs st, exists sts, bbs_steps (after h) cfgs st = Ok sts /\ length sts = length cfgs).
+Proof. exact (conj bbs_init_config_spec (conj bbs_steps_loaded bbs_steps_total)). Qed.
+Print Assumptions C17_bbsname_big5_follows_name.
